@@ -66,6 +66,8 @@ type Case struct {
 	// construction, the window of known finding C05-1 (a command submitted while the engine
 	// is still finishing trailing events is scheduled at whatever time the engine has reached).
 	SyncHandoff bool `json:"sync_handoff"`
+	// NumGPUs > 1: the kernel runs on a unified device over all GPUs
+	NumGPUs int `json:"num_gpus"`
 }
 
 var yieldPoints = []string{"drain-subscribed", "drain-signaled", "drain-before-wait", "drain-after-wait", "drain-return",
@@ -90,7 +92,12 @@ func genCase(t *rapid.T) Case {
 	if c.Timing {
 		c.GPUType = rapid.SampledFrom([]string{"r9nano", "r9nano", "mi300a"}).Draw(t, "gputype")
 	}
-	c.Prog = kgen.GenProgram(t, kgen.GenOpts{MaxItems: 512, MaxOps: 8, LDS: true, Partial: true, UniqueStores: true})
+	c.NumGPUs = rapid.SampledFrom([]int{1, 1, 2, 4}).Draw(t, "gpus")
+	if c.Timing && c.NumGPUs > 2 {
+		c.NumGPUs = 2
+	}
+	c.Prog = kgen.GenProgram(t, kgen.GenOpts{MaxItems: 512, MaxOps: 8, LDS: true, Partial: true, UniqueStores: true,
+		ManyGroups: c.NumGPUs > 1 && rapid.Bool().Draw(t, "manygroups")})
 	c.A = genSchedule(t, "a")
 	c.B = genSchedule(t, "b")
 	c.SyncHandoff = rapid.IntRange(0, 3).Draw(t, "sync") > 0
@@ -205,7 +212,18 @@ func runOnce(c Case, s Schedule) (obs Observables, inconclusive bool) {
 	if err != nil {
 		panic(fmt.Sprintf("harness: %v", err))
 	}
-	pl, err := plat.New(plat.Spec{Timing: c.Timing, GPUType: c.GPUType, NumGPUs: 1})
+	ngpu := c.NumGPUs
+	if ngpu < 1 {
+		ngpu = 1
+	}
+	rs := kgen.RunSpec{GPUs: []int{1}}
+	if ngpu > 1 {
+		rs = kgen.RunSpec{Unified: true}
+		for g := 1; g <= ngpu; g++ {
+			rs.GPUs = append(rs.GPUs, g)
+		}
+	}
+	pl, err := plat.New(plat.Spec{Timing: c.Timing, GPUType: c.GPUType, NumGPUs: ngpu})
 	if err != nil {
 		panic(fmt.Sprintf("harness: %v", err))
 	}
@@ -226,7 +244,7 @@ func runOnce(c Case, s Schedule) (obs Observables, inconclusive bool) {
 				done <- res{nil, fmt.Errorf("application thread panicked: %v", r)}
 			}
 		}()
-		o, err := kgen.LaunchWith(pl, c.Prog, comp, kgen.RunSpec{GPUs: []int{1}}, func(q *driver.CommandQueue) {
+		o, err := kgen.LaunchWith(pl, c.Prog, comp, rs, func(q *driver.CommandQueue) {
 			pl.Driver.DrainCommandQueue(q)
 			if c.SyncHandoff {
 				for atomic.LoadInt64(&h.starts) != atomic.LoadInt64(&h.exits) {
@@ -289,7 +307,7 @@ func RunCase(c Case) (res stats.Result) {
 	if c.Timing {
 		mode = "timing:" + c.GPUType
 	}
-	res.Labels = append(res.Labels, "mode:"+mode)
+	res.Labels = append(res.Labels, "mode:"+mode, fmt.Sprintf("gpus:%d", c.NumGPUs))
 	if c.SyncHandoff {
 		res.Excluded = append(res.Excluded, "C05-1")
 		res.Labels = append(res.Labels, "handoff-synchronised")
